@@ -199,7 +199,18 @@ fn custom_op(name: &str, args: &[&Array], with_backward: bool, uid: i64, log: &R
             if left < 0 {
                 panic!("verif: derivative evaluation budget exhausted");
             }
-            log.entries.borrow_mut().push(json!({"u": uid, "adj": tensor_out(x)}));
+            // what the closure is given: the adjoint, the flags slice, and whether its operands are tracked right now
+            let ct: Vec<bool> = c
+                .iter()
+                .map(|k| {
+                    let was = k.stop_tracking();
+                    if was {
+                        k.start_tracking();
+                    }
+                    was
+                })
+                .collect();
+            log.entries.borrow_mut().push(json!({"u": uid, "adj": tensor_out(x), "t": t, "ct": ct}));
             let pick = |i: usize, v: Array| if t[i] { Some(v) } else { None };
             match name.as_str() {
                 "cadd" => vec![pick(0, zip2(x, x, |p, _| p)), pick(1, zip2(x, x, |p, _| p))],
